@@ -83,7 +83,7 @@ CLAIMED = {
     "C13": (
         "Lean 4 theorems: ML weights >= 0 and 1 <= sum <= 1 + C thr/T (exactly 1 without floor), variances >= floors > 0 after ML/MAP M-steps and in every reachable machine state, every denominator (clip(n,thr), t, n + r, weight normaliser, guarded k-means counts) and log argument (weights, variances, mixture density) is positive; Float model vs implementation on a degenerate input stream + always-on finiteness search over all trainers",
         "Proof of the range facts that make the float statement true, for all C, D, statistics with non-negative counts. Tie: k-means iteration / variances-weights / ML M-step on duplicated rows, constant columns, fewer distinct points than components, far outliers and empty clusters (model keeps the centroid of an empty cluster; NaN compared as NaN).",
-        "Partial by nature: NaN/inf are float notions, established only on sampled runs by the always-on search (k-means, GMM ML all switches, GMM MAP, k-means-initialised GMM, i-vector). Zero-weight components rely on IEEE log 0 = -inf and are excluded from the theorems. Found and fixed D2.",
+        "Partial by nature: NaN/inf are float notions, established only on sampled runs by the always-on search (k-means, GMM ML all switches, GMM MAP, k-means-initialised GMM, i-vector). Zero-weight components rely on IEEE log 0 = -inf and are excluded from the theorems. Found and fixed D2. Known finding D26 (KNOWN-FINDING with a corpus witness): a finite sample further than ~2^53 component spacings from every Gaussian is counted once per tied component by the E-step, so ML / MAP weights sum to 1 + (k-1)/N; a floating-point effect the real-number theorems cannot see (in R the responsibilities sum to one); the training data of the search include half-precision features and single-precision features with such an outlier.",
         "§6 C13",
     ),
     "C19": (
@@ -99,8 +99,8 @@ CLAIMED = {
         "§6 C16",
     ),
     "C04": (
-        "Lean 4 theorems: per-block iteration = in-memory iteration for GMM ML / MAP and k-means (from C02_any_partition / additivity), lifted to whole fits incl. criterion and iteration count; determinacy over all linear extensions of a recorded task graph from the decidable discipline check (Bernstein conditions on dependency-unordered pairs); isolated = shared execution for readers + one writer with copy-back; the discipline executed on task graphs recorded from the real library + differential Dask-vs-NumPy runs under random-order and cloudpickle-isolating schedulers",
-        "Proof for every list of row blocks, every dependency-respecting execution order of a graph passing the discipline, and private-copy execution. Tie: a recording Dask scheduler captures each compute graph with observed per-task write sets (field-level hashes); the model's shape / discipline / isolation checks run on them; trained model, criterion and iteration count are compared with the in-memory run for all compositions of small n, uneven chunks, feature-axis chunks and three executors.",
+        "Lean 4 theorems: per-block iteration = in-memory iteration for GMM ML / MAP and k-means (from C02_any_partition / additivity), lifted to whole fits incl. criterion and iteration count; determinacy over all linear extensions of a recorded task graph from the decidable discipline check (Bernstein conditions on dependency-unordered pairs); isolated = shared execution for readers + one writer with copy-back; every block's statistics enter each M-step exactly once for any shape of the reduction (C04_blocks_exactly_once, soundness of the executable path-count check: dependency order + one path from the final task to every E-step task => the final task receives exactly the sum of their results); the discipline executed on task graphs recorded from the real library + differential Dask-vs-NumPy runs under random-order and cloudpickle-isolating schedulers",
+        "Proof for every list of row blocks, every dependency-respecting execution order of a graph passing the discipline, and private-copy execution. Tie: a recording Dask scheduler captures each compute graph with observed per-task write sets (field-level hashes); the model's shape (one E-step task per row block, each with exactly one path to the M-step) / discipline / isolation checks run on them; trained model, criterion and iteration count are compared with the in-memory run for all compositions of small n, uneven chunks, feature-axis chunks and three executors.",
         "Atomic unit = Dask task (no intra-task interleavings). Copy-back completeness is decided by the isolated differential run. ISV/JFA per-class regrouping is C12's theorem. Found and fixed D11 (D1 was found through C06).",
         "§6 C04",
     ),
@@ -117,13 +117,13 @@ CLAIMED = {
         "§6 C10",
     ),
     "C12": (
-        "Lean 4 theorems: the regrouping loop of _prepare_dask_input on any partitioning equals the loop on the flattened bag (so per-class lists, and whole ISV/JFA fits, do not depend on the partitioning); the pairwise reduction of any non-empty list is the singleton of its sum (strong induction on the length, both parities); i-vector per-partition E-steps + tree reduction = in-memory E-step; order/isolation determinacy from the discipline check; the model's regrouping and tree reduction executed on the real partition layouts / recorded per-partition accumulators, recorded bag graphs through the discipline, and bag-vs-list differential runs",
+        "Lean 4 theorems: the regrouping loop of _prepare_dask_input on any partitioning equals the loop on the flattened bag (so per-class lists, and whole ISV/JFA fits, do not depend on the partitioning); the pairwise reduction of any non-empty list is the singleton of its sum (strong induction on the length, both parities); i-vector per-partition E-steps + tree reduction = in-memory E-step; order/isolation determinacy from the discipline check; exactly-once for any reduction shape (C12_exactly_once: in a dependency-ordered graph whose E-step tasks each reach the M-step along exactly one path, the M-step receives exactly the sum of their results, however the additions are grouped; a task without a path is absent from it, C12_dropped_partition_ignored) with the executable path-count check run on the recorded graphs for every partition count 1..24 (thorough 1..80); the model's regrouping and tree reduction executed on the real partition layouts / recorded per-partition accumulators, recorded bag graphs through the discipline, and bag-vs-list differential runs",
         "Proof for every number and size of partitions (incl. single-element and empty ones), every label sequence, every list length of the reduction, every dependency-respecting order of a disciplined graph. Tie: the real _prepare_dask_input output vs the model, ivector e_step partial sums vs the model's treeReduce, ISV / JFA / i-vector fit(dask.bag) vs list for 1..N partitions under synchronous, random-order and isolating executors (thorough: also the processes scheduler).",
-        "Atomic unit = Dask task. dask.bag's own partitioning function is not modelled: the layout is read back from the bag.",
+        "Atomic unit = Dask task. dask.bag's own partitioning function is not modelled: the layout is read back from the bag. The exactly-once theorem assumes that every task between the E-steps and the M-step adds up its dependencies (tied by the tree_reduce and bag-vs-list runs); dependencies are recorded as sets, so the same task listed twice in one argument list is not visible to the path count (it is to the differential runs).",
         "§6 C12",
     ),
     "C15": (
-        "Lean 4 theorems: log-likelihood shifts by -sum log|a|, responsibilities invariant, statistics transform as N, aF+bN, a^2 S+2abF+b^2 N, ML M-step and whole ML training runs equivariant for every number of iterations (floors transformed; starved components included since repair D25, the pinned update refuted), MAP Spec means/variances equivariant and the pinned variance blend refuted (a = 2), linear scores invariant, channel-factor posterior invariant under the transformed ISV/JFA model, every enrolment iterate (y, all x_h, z) invariant, i-vector posterior mean invariant, ISV/JFA training and i-vector training (fixed covariances; updated covariances under uniform scales with the floor transformed) equivariant, k-means assignments invariant under uniform scale + shift and distances under orthogonal maps; metamorphic original-vs-transformed runs on the implementation",
+        "Lean 4 theorems: log-likelihood shifts by -sum log|a|, responsibilities invariant, statistics transform as N, aF+bN, a^2 S+2abF+b^2 N, ML M-step and whole ML training runs equivariant for every number of iterations (floors transformed; starved components included since repair D25, the pinned update refuted), MAP Spec means/variances equivariant and the pinned variance blend refuted (a = 2), linear scores invariant, channel-factor posterior invariant under the transformed ISV/JFA model, every enrolment iterate (y, all x_h, z) invariant, i-vector posterior mean invariant, ISV/JFA training and i-vector training (fixed covariances; updated covariances under uniform scales with the floor transformed) equivariant, k-means assignments invariant under uniform scale + shift and distances under orthogonal maps; any history of public assignments (weights, means, variances, per-Gaussian per-feature floors, copies, in any order) run in converted units leaves the machine with the converted clamped variances and floors (C15_assignment_history_equivariant over the C17 setter state machine, tied by running C17's history correspondence inside this check); metamorphic original-vs-transformed runs on the implementation",
         "Proof for all per-feature scales a != 0 and shifts b (k-means: all similarities). Tie: the kernels involved are tied to the code by C01-C03, C05-C08, C10, C11; here the log-likelihood and E-step kernels are re-run on transformed inputs (negative and widely different scales) and the metamorphic relations are observed on the implementation for likelihoods, ML/MAP training, linear scoring, ISV/JFA latents-scores-client means, i-vectors and k-means under rotations.",
         "Real arithmetic. Known findings: MAP variance update not equivariant (D3), and GMMMachine.fit's relative stopping test on the average log-likelihood is not unit-free, so with an active convergence_threshold the number of iterations depends on the units (D24; C15_gmm_stop_rule_depends_on_units) — both KNOWN-FINDING with a corpus witness; the equivariance theorems are about a fixed number of iterations. ISV / JFA training (all phases, any number of iterations) and i-vector training with fixed covariances are proved equivariant (U, V, D, T rows follow the features); i-vector training with update_sigma is proved equivariant for one M-step under per-feature scales while the floor is inactive, and for whole training runs under any uniform scale and shift with the scalar floor transformed like a variance (clamping or not); per-feature scales with a clamping floor are outside the property (the floor is one scalar).",
         "§6 C15",
